@@ -248,6 +248,13 @@ impl Ex {
                 let below = if inclusive { h <= t } else { h < t };
                 if !below {
                     stopped_here = true;
+                    if (h - t).abs() <= tie_rel * t.abs().max(1.0) && !self.link.heights_are_input_entries() {
+                        // the agglomeration stops at a height equal to the threshold; merges that
+                        // would follow at the same (real-arithmetic) height are computed with
+                        // rounding and may land just below the threshold in an implementation
+                        let nxt = merge(self.link, st, a, b);
+                        self.probe(&nxt, t);
+                    }
                     continue;
                 }
             }
@@ -260,6 +267,44 @@ impl Ex {
         }
         if followed == 0 && stopped_here {
             self.emit(st);
+        }
+    }
+}
+
+impl Ex {
+    /// Looks past a merge at height == threshold for computed (non-input) heights within the
+    /// rounding margin of the threshold; sets `near_threshold` when there is one.
+    fn probe(&mut self, st: &St, t: f64) {
+        self.out.nodes += 1;
+        if self.out.near_threshold || self.out.nodes > node_cap(self.n) {
+            if self.out.nodes > node_cap(self.n) {
+                self.out.overflow = true;
+            }
+            return;
+        }
+        let m = st.members.len();
+        if m <= 1 {
+            return;
+        }
+        let sq = self.link.on_squares();
+        let height = move |v: f64| if sq { v.sqrt() } else { v };
+        let margin = self.tie_rel * t.abs().max(1.0);
+        for a in 0..m {
+            for b in a + 1..m {
+                let h = height(st.d[a][b]);
+                if (h - t).abs() <= margin {
+                    let exact = st.members[a].len() == 1 && st.members[b].len() == 1;
+                    if !exact {
+                        self.out.near_threshold = true;
+                        return;
+                    }
+                    let nxt = merge(self.link, st, a, b);
+                    self.probe(&nxt, t);
+                    if self.out.near_threshold {
+                        return;
+                    }
+                }
+            }
         }
     }
 }
